@@ -402,6 +402,9 @@ func cliDiagnostics(meta *common.Meta, dir string, pkgs []*fw.Pkg, ems map[strin
 			args = append(args, "./checkers/testdata/"+p.Name)
 		}
 		out, code, err := common.Run(300*time.Second, dir, common.GoEnv(), filepath.Join(common.BinDir(), "go-critic"), args...)
+		if fw.IsTimeout(err) { // retried once with a longer limit; see fw.RunPatient
+			out, code, err = common.Run(900*time.Second, dir, common.GoEnv(), filepath.Join(common.BinDir(), "go-critic"), args...)
+		}
 		if err == nil && code != 0 && code != 1 {
 			err = fmt.Errorf("exit %d: %s", code, clipStr(out, 300))
 		}
@@ -409,6 +412,13 @@ func cliDiagnostics(meta *common.Meta, dir string, pkgs []*fw.Pkg, ems map[strin
 	})
 	res := map[string][]wkey{}
 	for i := range batches {
+		if fw.IsTimeout(errs[i]) {
+			meta.Notes = append(meta.Notes, "CLI-level stage: go-critic check on "+dir+" hit the wall-clock limit twice (no observation, not a verdict): "+errs[i].Error())
+			for _, p := range batches[i] {
+				res["\x00unobserved/"+p.Name] = []wkey{}
+			}
+			continue
+		}
 		if errs[i] != nil {
 			meta.TieBroken = append(meta.TieBroken, "go-critic check on "+dir+" did not finish normally: "+errs[i].Error())
 			continue
@@ -446,6 +456,12 @@ func cliLevel(meta *common.Meta, name, mod string, s1 []*fw.Pkg, ems map[string]
 	files, withDiag := 0, 0
 	for _, p := range s1 {
 		if _, ex := Exempt[p.Name]; ex {
+			continue
+		}
+		if _, u := got["\x00unobserved/"+p.Name]; u {
+			continue
+		}
+		if _, u := cliBase["\x00unobserved/"+p.Name]; u {
 			continue
 		}
 		for _, f := range p.Files {
